@@ -364,17 +364,129 @@ def relay_case(kind):
             'ev': ev}
 
 
+def relay_tlsclose_case():
+    """a downstream that speaks TLS, takes a message, answers QUIT - and then neither closes the connection nor answers the
+    closing handshake: the relay's connection slot (pool size 1) must be free for the next message all the same"""
+    CLOCK.reset(1000.0)
+    ev = []
+
+    def log(**kw):
+        kw['now'] = int(CLOCK.now)
+        ev.append(kw)
+    keep = []
+    nconn = [0]
+
+    def peer(sock, k):
+        try:
+            s = srv_ctx().wrap_socket(sock, server_side=True)
+            keep.append(s)
+            s.sendall(b'220 ready\r\n')
+            buf, data = b'', False
+            nr = 0
+            while True:
+                d = s.recv(4096)
+                if not d:
+                    return
+                buf += d
+                while True:
+                    if data:
+                        j = buf.find(b'\r\n.\r\n')
+                        if j < 0 and not buf.startswith(b'.\r\n'):
+                            break
+                        buf = buf[(j + 5) if j >= 0 else 3:]
+                        data = False
+                        if k == 1:
+                            log(t='peer', stage='eod', i=0, act='code', code=250, conn=k, trans=0, m=0)
+                        s.sendall(b'250 taken\r\n')
+                        continue
+                    j = buf.find(b'\r\n')
+                    if j < 0:
+                        break
+                    line, buf = buf[:j], buf[j + 2:]
+                    verb = line.split(b' ')[0].upper().split(b':')[0]
+                    if verb == b'DATA':
+                        data = True
+                        if k == 1:
+                            log(t='peer', stage='data', i=0, act='code', code=354, conn=k, trans=0, m=0)
+                        s.sendall(b'354 go\r\n')
+                    elif verb == b'QUIT':
+                        s.sendall(b'221 bye\r\n')
+                        gevent.sleep(3600)          # ... and nothing more: no close, no answer to close_notify
+                    else:
+                        if k == 1 and verb in (b'MAIL', b'RCPT'):
+                            log(t='peer', stage=verb.decode().lower(), i=0, act='code', code=250, conn=k, trans=0, m=0)
+                        s.sendall(b'250 ok\r\n')
+        except Exception:  # noqa
+            pass
+
+    def creator(addr):
+        a, b = gsocket.socketpair()
+        k = nconn[0]
+        nconn[0] += 1
+        keep.append(b)
+        gevent.spawn(peer, b, k)
+        return a
+    relay = StaticSmtpRelay('198.51.100.7', 25, socket_creator=creator, ehlo_as='relay.example', context=cli_ctx(), tls_immediately=True,
+                            pool_size=1, connect_timeout=5, command_timeout=CMD_T, data_timeout=DATA_T)
+    res = {}
+
+    def attempt(req):
+        env = Envelope('sender%d@a.example' % req, ['rcpt%d-0@b.example' % req])
+        env.parse(b'Subject: t\r\n\r\nbody\r\n')
+        try:
+            relay.attempt(env, 0)
+            res[req] = {'kind': 'whole', 'cls': '', 'per': ['ok']}
+        except PermanentRelayError:
+            res[req] = {'kind': 'raise', 'cls': 'P', 'per': []}
+        except TransientRelayError:
+            res[req] = {'kind': 'raise', 'cls': 'T', 'per': []}
+        except BaseException as e:  # noqa
+            res[req] = {'kind': 'raise', 'cls': 'other', 'per': [], 'exc': type(e).__name__}
+    g1 = gevent.spawn(attempt, 1)
+    for _ in range(60):
+        if g1.ready():
+            break
+        pump(0.05)
+    pump(0.2)                     # the first connection: QUIT sent and answered, the relay is closing it
+    log(t='call', req=2, nrcpt=1)
+    g2 = gevent.spawn(attempt, 2)
+    for _ in range(40):
+        if g2.ready():
+            break
+        pump(0.05)
+    for _ in range(6):
+        if g2.ready() or CLOCK.next_deadline() is None:
+            break
+        CLOCK.fire_next()
+        pump(0.1)
+        log(t='advance')
+    if g2.ready() and 2 in res:
+        r = dict(res[2])
+        r.update({'t': 'ret', 'req': 2, 'code': 0, 'marker': 0, 'now': int(CLOCK.now)})
+        ev.append(r)
+    log(t='end', hung=0 if g2.ready() else 1, open=0)
+    for g in (g1, g2):
+        g.kill(block=False)
+    try:
+        for c in list(relay.pool):
+            c.kill(block=False)
+    except Exception:  # noqa
+        pass
+    return {'cls': 'relaystall-tlsclose', 'cfg': {'lmtp': False, 'pipelining': False, 'kind': 'smtp', 'deadline': 1000 + 2 * CMD_T, 'stage': 'close'},
+            'ev': ev}
+
+
 def main():
     out, shard, nshards, tier, seed, mode = sys.argv[1], int(sys.argv[2]), int(sys.argv[3]), sys.argv[4], int(sys.argv[5]), sys.argv[6]
     f = open(out, 'w')
     stats = {'executions': 0}
     cases = ([('s', k) for k in ('starttls-silent', 'starttls-partial', 'immediate-silent', 'starttls-done-silent', 'immediate-done-silent')] if mode == 'server'
-             else [('r', k) for k in ('immediate', 'starttls', 'starttls-default', 'defaultsock-banner', 'defaultsock-mail')])
+             else [('r', k) for k in ('immediate', 'starttls', 'starttls-default', 'defaultsock-banner', 'defaultsock-mail', 'tlsclose')])
     n = 0
     for i, (which, k) in enumerate(cases):
         if i % nshards != shard:
             continue
-        tr = server_case(k) if which == 's' else relay_case(k)
+        tr = server_case(k) if which == 's' else relay_tlsclose_case() if k == 'tlsclose' else relay_case(k)
         tr['id'] = shard + n * nshards
         stats['executions'] += 1
         f.write(json.dumps(tr, separators=(',', ':')) + '\n')
